@@ -38,6 +38,10 @@ pub enum Form {
     NestedItem,
     /// `from mR.sub import *`
     NestedWildcard,
+    /// `import hX` from inside the directory module mX (a private helper file `mX/hX.koto`)
+    HelperInside,
+    /// `import 'mX/hX' as qN` from a file in the root directory: the same file by another spelling
+    HelperByPath,
 }
 
 #[derive(Clone, Debug)]
@@ -105,6 +109,8 @@ pub enum Disk {
 pub struct World {
     pub modules: Vec<ModuleDef>,
     pub disk: Vec<Disk>,
+    /// directory modules with a private helper file `mX/hX.koto`
+    pub helper: Vec<bool>,
 }
 
 #[derive(Clone, Debug)]
@@ -121,6 +127,9 @@ pub enum HostOp {
 
 #[derive(Clone, Debug)]
 pub struct Scenario {
+    /// the importing script is reached through a symlink to the scratch directory (its path is
+    /// not canonical): module identity must not depend on how a file's path is spelled
+    pub via_symlink: bool,
     pub world: World,
     pub ops: Vec<HostOp>,
     pub run_import_tests: bool,
@@ -138,6 +147,18 @@ fn world_subs(modules: &[ModuleDef]) -> Vec<(usize, usize)> {
             })
         })
         .collect()
+}
+
+fn hname(i: usize) -> String {
+    format!("h{}", (b'a' + i as u8) as char)
+}
+
+fn helper_def(m: usize) -> ModuleDef {
+    ModuleDef {
+        top: vec![Step::Mark(100 * (m as u32 + 1) + 70), Step::Export(7, 70 + m as i64)],
+        test: None,
+        main: None,
+    }
 }
 
 fn mname(i: usize) -> String {
@@ -201,6 +222,15 @@ fn render_import(out: &mut Vec<String>, indent: usize, s: &ImportStmt, exported_
         (Form::NestedWildcard, Some(item)) => {
             lines.push(format!("from {}.sub import *", mname(s.via)));
             lines.push(format!("val({}, {item})", s.id));
+        }
+        (Form::HelperInside, _) => {
+            let h = hname(s.target);
+            lines.push(format!("import {h}"));
+            lines.push(format!("val({}, {h}.{})", s.id, ename(s.target, 7)));
+        }
+        (Form::HelperByPath, _) => {
+            lines.push(format!("import '{}/{}' as q{}", mname(s.target), hname(s.target), s.id));
+            lines.push(format!("val({}, q{}.{})", s.id, s.id, ename(s.target, 7)));
         }
         (_, None) => {
             lines.push(format!("import {m}"));
@@ -317,11 +347,38 @@ fn dir_variant(def: &ModuleDef) -> ModuleDef {
     }
 }
 
+/// a symlink next to the scratch directory that points to it
+pub fn link_path(scratch: &Scratch) -> std::path::PathBuf {
+    let mut p = scratch.dir.clone().into_os_string();
+    p.push("-link");
+    std::path::PathBuf::from(p)
+}
+
+fn ensure_link(scratch: &Scratch) {
+    let link = link_path(scratch);
+    if std::fs::symlink_metadata(&link).is_err() {
+        let _ = std::os::unix::fs::symlink(&scratch.dir, &link);
+    }
+}
+
 pub fn write_world(w: &World, scratch: &Scratch) {
     scratch.clear();
+    ensure_link(scratch);
     std::fs::write(scratch.dir.join("main.koto"), "# importing script\n").expect("write");
     for i in 0..w.modules.len() {
         write_module(w, i, w.disk[i], scratch);
+    }
+}
+
+fn write_helper(w: &World, i: usize, scratch: &Scratch) {
+    if w.helper[i] && w.disk[i] == Disk::Dir {
+        let dir = scratch.dir.join(mname(i));
+        let _ = std::fs::create_dir_all(&dir);
+        std::fs::write(
+            dir.join(format!("{}.koto", hname(i))),
+            render_module(&helper_def(i), i, w),
+        )
+        .expect("write helper");
     }
 }
 
@@ -353,6 +410,7 @@ fn write_module(w: &World, i: usize, disk: Disk, scratch: &Scratch) {
         Disk::InvalidUtf8 => std::fs::write(&file, b"export x = 1\n\xff\xfe\n").expect("write"),
         Disk::BrokenSyntax => std::fs::write(&file, "export x = (1 +\n").expect("write"),
     }
+    write_helper(w, i, scratch);
 }
 
 // ---------------------------------------------------------------------------------------------
@@ -487,7 +545,20 @@ pub fn gen_scenario(seed: u64) -> Scenario {
             ]);
         }
     }
-    let world = World { modules: modules.clone(), disk };
+    // private helper files of directory modules, imported from inside and (by path) from outside
+    let mut helper = vec![false; n];
+    for m in 0..n {
+        if disk[m] == Disk::Dir && r.chance(1, 2) {
+            helper[m] = true;
+            let at = 1 + r.usize_below(modules[m].top.len());
+            modules[m].top.insert(
+                at,
+                Step::Import(ImportStmt { target: m, form: Form::HelperInside, in_try: false, id: id(), via: 0 }),
+            );
+        }
+    }
+    let via_symlink = k.chance(1, 3);
+    let world = World { modules: modules.clone(), disk, helper };
 
     // the host history
     let nops = r.range(2, 7) as usize;
@@ -538,10 +609,20 @@ pub fn gen_scenario(seed: u64) -> Scenario {
                     if stmt.form == Form::FromItem && !from_item_targets.contains(&stmt.target) {
                         from_item_targets.push(stmt.target);
                     }
+                    // the helper file of a directory module, by path
+                    if r.chance(1, 4) {
+                        let hs: Vec<usize> = (0..n).filter(|m| world.helper[*m]).collect();
+                        if !hs.is_empty() {
+                            stmt.target = *r.pick(&hs);
+                            stmt.form = Form::HelperByPath;
+                            stmt.via = 0;
+                        }
+                    }
                     if r.chance(1, 6) {
                         lazies.push(stmt.id);
                         let stmt = ImportStmt {
                             form: match stmt.form {
+                                Form::HelperByPath => Form::HelperByPath,
                                 Form::Wildcard => Form::Plain,
                                 Form::NestedWildcard => Form::NestedItem,
                                 f => f,
@@ -616,6 +697,7 @@ pub fn gen_scenario(seed: u64) -> Scenario {
         }
     }
     Scenario {
+        via_symlink,
         world,
         ops,
         run_import_tests,
@@ -740,6 +822,28 @@ impl ModelState {
                 return Err(e);
             }
         };
+        self.load(path, disk_def, m, cx)
+    }
+
+    /// the private helper file of directory module `m`: `mX/hX.koto`, whichever way it is named
+    fn import_helper(&mut self, m: usize, form: Form, cx: &mut RunCtx) -> Result<Exports, ErrClass> {
+        let path = format!("{}/{}.koto", mname(m), hname(m));
+        let exists = self.world.helper[m] && self.world.disk[m] == Disk::Dir;
+        let importer = self.in_progress.last().cloned();
+        let reachable = match form {
+            // `import hX`: only from the directory module's own main file
+            Form::HelperInside => importer.as_deref() == Some(&format!("{}/main.koto", mname(m))),
+            // `import 'mX/hX'`: from any file in the root directory (host script included)
+            _ => importer.is_none_or(|p| !p.contains('/')),
+        };
+        if !exists || !reachable {
+            return Err(ErrClass::NotFound);
+        }
+        self.load(path, helper_def(m), m, cx)
+    }
+
+    /// run-once / cache / cycle / rollback for one resolved file
+    fn load(&mut self, path: String, disk_def: ModuleDef, m: usize, cx: &mut RunCtx) -> Result<Exports, ErrClass> {
         let (def, loaded_from_cache) = match self.loader.get(&path) {
             Some(d) => (d.clone(), true),
             None => {
@@ -805,6 +909,8 @@ impl ModelState {
                     return Err(ErrClass::MissingItem);
                 }
                 sub
+            } else if matches!(s.form, Form::HelperInside | Form::HelperByPath) {
+                self.import_helper(s.target, s.form, cx)?
             } else {
                 self.import(s.target, cx)?
             };
@@ -832,7 +938,11 @@ impl ModelState {
                 return Err(ErrClass::MissingItem);
             }
             // the value recorded by `val(id, …)`: the first export of the target's healthy form
-            let item = first_export(&self.world, s.target).map(|k| ename(s.target, k));
+            let item = if matches!(s.form, Form::HelperInside | Form::HelperByPath) {
+                Some(ename(s.target, 7))
+            } else {
+                first_export(&self.world, s.target).map(|k| ename(s.target, k))
+            };
             Ok(match item {
                 Some(item) => match exports.iter().find(|(n, _)| *n == item) {
                     Some((_, v)) => v.to_string(),
@@ -1104,10 +1214,11 @@ pub fn new_instance(sc: &Scenario, scratch: &Scratch) -> ModInstance {
             Ok(KValue::from(id))
         }
     });
+    let script_dir = if sc.via_symlink { link_path(scratch) } else { scratch.dir.clone() };
     ModInstance {
         host,
         log,
-        script_path: scratch.dir.join("main.koto").to_string_lossy().to_string(),
+        script_path: script_dir.join("main.koto").to_string_lossy().to_string(),
     }
 }
 
@@ -1520,6 +1631,11 @@ pub fn shrink(sc: &Scenario, class: &str, scratch: &Scratch, clock: &Rc<VClock>)
             c.run_import_tests = false;
             cands.push(c);
         }
+        if best.via_symlink {
+            let mut c = best.clone();
+            c.via_symlink = false;
+            cands.push(c);
+        }
         let mut progressed = false;
         for c in cands {
             steps += 1;
@@ -1546,9 +1662,15 @@ pub fn scenario_to_json(sc: &Scenario) -> Value {
     let mut world = sc.world.clone();
     let mut model = ModelState::new(sc);
     let files = |w: &World| -> Vec<Value> {
-        (0..w.modules.len())
+        let mut v: Vec<Value> = (0..w.modules.len())
             .map(|i| json!({"module": mname(i), "disk": format!("{:?}", w.disk[i]), "text": render_module(&w.modules[i], i, w)}))
-            .collect()
+            .collect();
+        for i in 0..w.modules.len() {
+            if w.helper[i] && w.disk[i] == Disk::Dir {
+                v.push(json!({"module": format!("{}/{}", mname(i), hname(i)), "disk": "HelperFile", "text": render_module(&helper_def(i), i, w)}));
+            }
+        }
+        v
     };
     let initial_files = files(&world);
     let ops: Vec<Value> = sc
@@ -1583,6 +1705,8 @@ pub fn scenario_to_json(sc: &Scenario) -> Value {
         .collect();
     json!({
         "run_import_tests": sc.run_import_tests,
+        "script_reached_through_symlink": sc.via_symlink,
+        "via_symlink": sc.via_symlink,
         "files": initial_files,
         "operations": ops,
         "debug": format!("{sc:?}"),
@@ -1606,6 +1730,12 @@ pub fn replay(doc: &Value) -> (Option<(String, String)>, u64) {
         let _ = std::fs::remove_file(&file);
         let _ = std::fs::remove_dir_all(&file);
         match f["disk"].as_str().unwrap_or("") {
+            "HelperFile" => {
+                if let Some(parent) = file.parent() {
+                    let _ = std::fs::create_dir_all(parent);
+                }
+                std::fs::write(&file, text).expect("write")
+            }
             "File" => std::fs::write(&file, text).expect("write"),
             "Dir" => {
                 std::fs::create_dir_all(&dir).expect("mkdir");
@@ -1624,11 +1754,15 @@ pub fn replay(doc: &Value) -> (Option<(String, String)>, u64) {
             _ => std::fs::write(&file, "export x = (1 +\n").expect("write"),
         }
     };
-    for f in sc["files"].as_array().cloned().unwrap_or_default() {
+    ensure_link(&scratch);
+    let mut files = sc["files"].as_array().cloned().unwrap_or_default();
+    files.sort_by_key(|f| f["disk"].as_str() == Some("HelperFile"));
+    for f in files {
         write_file(&f);
     }
     let dummy = Scenario {
-        world: World { modules: vec![], disk: vec![] },
+        via_symlink: sc["via_symlink"].as_bool().unwrap_or(false),
+        world: World { modules: vec![], disk: vec![], helper: vec![] },
         ops: vec![],
         run_import_tests: sc["run_import_tests"].as_bool().unwrap_or(true),
     };
@@ -1788,6 +1922,9 @@ pub fn features(sc: &Scenario) -> BTreeSet<String> {
         }
     }
     f.insert(format!("modules:{}", sc.world.modules.len()));
+    if sc.via_symlink {
+        f.insert("script-path-through-symlink".into());
+    }
     f
 }
 
